@@ -27,6 +27,14 @@ theorem index_structure (d : Doc) :
     (reference d.text).bp = treeBp d.value ∧ (reference d.text).ib = toksStdIb d.toks :=
   ⟨(reference_doc d).2, (reference_doc d).1⟩
 
+/-- Tree-level statement of the IB part: for every valid document, the `k`-th interest bit of the
+index is the first byte of the `k`-th node of the document tree in preorder (containers, object keys
+and values, array elements; `spansOf` lists the nodes' spans in preorder), and there are no further
+interest bits. -/
+theorem index_structure_preorder (d : Doc) (k : Nat) :
+    selectB true (reference d.text).ib k = ((spansOf d.value (blen (wsToks d.ws0))).map (·.1))[k]? := by
+  rw [JsonSimple.selectB_truePositions, ib_preorder]
+
 /-- Non-vacuity: `{"k":[1,{}]}`. -/
 example :
     let d : Doc := ⟨[], .obj [] [.plain ⟨0x6B#8, by decide⟩] [] []
